@@ -101,11 +101,25 @@ def run_export(tid, sessions, opts, rng, directory=False):
             out.append({"id": str(c.id), "tpool": str(c.tally_pool), "pool": (c.pool if isinstance(c.pool, bool) else "non-boolean"),
                         "votes": votes})
         rec["out"] = out
+        # the caller owns the records it was given: whatever it does to them afterwards (here: every votes dict is
+        # written to) must not show up in a later import
+        for c in cvrs:
+            try:
+                c.votes["~later"] = {"1": 1}
+            except Exception:
+                pass
     except Exception as ex:
         rec["exc"] = {"type": type(ex).__name__, "site": core.exc_site(ex)}
     finally:
         shutil.rmtree(tmp, ignore_errors=True)
     return rec
+
+
+def regroup(sessions, opts):
+    """the same export with counting groups numbered from 0 (a group id is a number like any other)"""
+    for s_ in sessions:
+        s_["group"] = s_["group"] - 1
+    return dict(opts, include=[g - 1 for g in opts["include"]], pool=[g - 1 for g in opts["pool"]])
 
 
 def run(pid, tier):
@@ -146,7 +160,7 @@ def run(pid, tier):
         recs.append(run_export(f"s{j}", [abstract_session(b, rng)], opts, rng))
         if j % 3 == 0 and j + 1 < len(behs):
             two = [abstract_session(b, rng, 0), abstract_session(behs[j + 1], rng, 1)]
-            recs.append(run_export(f"d{j}", two, opts, rng, directory=(j % 6 == 0)))
+            recs.append(run_export(f"d{j}", two, regroup(two, opts) if j % 4 == 0 else opts, rng, directory=(j % 6 == 0)))
         if j % 7 == 0 and j + 2 < len(behs):
             # three sessions, the third from the same batch as the first (a batch's sessions need not be contiguous in the
             # file), sometimes with a session that carries no contest at all (a blank sheet)
@@ -154,7 +168,7 @@ def run(pid, tier):
             three[2].update(tab=three[0]["tab"], batch=three[0]["batch"], rec="X")
             if j % 14 == 0:
                 three[rng.randrange(3)].update(orig=[], modi=[])
-            recs.append(run_export(f"t{j}", three, opts, rng))
+            recs.append(run_export(f"t{j}", three, regroup(three, opts) if j % 3 == 0 else opts, rng))
     # an export without sessions
     recs.append(run_export("z0", [], {"useCurrent": True, "enforce": True, "include": [], "pool": []}, rng))
     rejects, stats = core.validate_traces("Trace_DominionImport", recs,
